@@ -381,6 +381,8 @@ def run(chk: Check):
                 hdr = img.header if fam == 'vol' else img.nifti_header
                 par['nbytes'] = int(np.prod(img.shape) * img.dataobj.dtype.itemsize)
                 par['vox'] = int(img.dataobj.offset)
+                par['shape'] = '[' + ','.join(str(int(x)) for x in img.shape) + ']'
+                par['w'] = int(img.dataobj.dtype.itemsize)
                 par['be'] = int(getattr(hdr, 'endianness', '>') == '>')
                 par['hsize'] = int(hdr._hdrdtype.itemsize) if isinstance(img, nib.MGHImage) else int(hdr.sizeof_hdr)
                 par['ftr'] = int(hdr._ftrdtype.itemsize) if isinstance(img, nib.MGHImage) else 0
@@ -426,7 +428,25 @@ def run(chk: Check):
                     line = f'trk {strict} {hx(plain)} {mlens}'
                 if line:
                     lines.append(f'{cid} {line}')
-                spec.setdefault('_members', {})[(comp, key)] = dict(raw=raw, plain=plain, av=av, cid=cid if line else None)
+                # partial reads through the array proxy: the fileslice model of C06 on the same prefixes
+                # (plain files, and compressed streams that end silently; a raising stream: predicate only)
+                pcids = {}
+                if fam in ('vol', 'cifti') and key == 'image' and not strict:
+                    for mode in modes:
+                        if mode not in ('slice_step', 'slice_last'):
+                            continue
+                        step = int(mode == 'slice_step')
+                        cls = spec.get('cls')
+                        if fam == 'vol' and cls is nib.MGHImage:
+                            pl = f"pmgh {par['hsize']} {par['vox']} {par['ftr']} {step} {par['shape']} {par['w']} {hx(plain)} {mlens}"
+                        elif fam == 'cifti' or len(cls.files_types) == 1:
+                            pl = f"psingle {par['hsize']} {par['vox']} {par['be']} {step} {par['shape']} {par['w']} {hx(plain)} {mlens}"
+                        else:
+                            pl = f"pimg {par['vox']} {step} {par['shape']} {par['w']} {hx(plain)} {mlens}"
+                        pcids[mode] = f'{cid}:{mode}'
+                        lines.append(f'{cid}:{mode} {pl}')
+                spec.setdefault('_members', {})[(comp, key)] = dict(raw=raw, plain=plain, av=av, cid=cid if line else None,
+                                                                    pcids=pcids)
     t_prep = time.time() - t0
     # ---- run the sweeps in child processes
     with Pool(min(8, os.cpu_count() or 2)) as pool:
@@ -466,10 +486,13 @@ def run(chk: Check):
                 chk.violation('property_violation', case=desc, impl_output=rep,
                               predicate=f'{name}: the file cut at byte {n} of {len(m["raw"])} loads without error as DIFFERENT data')
         # correspondence with the model
-        if m['cid'] is None or mode not in ('full', 'lazy_retry'):
-            chk.tagc('oracle_member_predicate_only' if m['cid'] is None else 'partial_read_predicate_only', len(s))
+        mcid = m['cid'] if mode in ('full', 'lazy_retry') else m['pcids'].get(mode)
+        if mcid is None:
+            chk.tagc('oracle_member_predicate_only' if m['cid'] is None else 'predicate_only:' + mode, len(s))
             continue
-        ms = mod.get(m['cid'], '<missing>')
+        if mode in m['pcids']:
+            chk.tagc('partial_read_vs_fileslice_model', len(s))
+        ms = mod.get(mcid, '<missing>')
         if not ms.startswith('ok ') or len(ms) - 3 != len(s):
             chk.disagreements += 1
             chk.violation('correspondence', case={'file': name}, model_output=ms[:200], found_input=False,
@@ -525,9 +548,10 @@ def run(chk: Check):
 
 
 UNPROVED = [
-    'partial reads through the array proxy (fileslice) of a truncated file, repeated reads from one lazily loaded '
-    'tractogram object, and GIFTI parsing with an explicit buffer_size: no model; every cut point is swept against the '
-    'predicate (exception, or exactly the corresponding part of the data written)',
+    'repeated reads from one lazily loaded tractogram object and GIFTI parsing with an explicit buffer_size: no model; '
+    'every cut point is swept against the predicate (exception, or exactly the data written)',
+    'partial reads of a file delivered by a compressed stream that RAISES when it runs out (bz2, zstd): predicate only; '
+    'C08_prefix_partial_read covers plain files and streams that end silently (any prefix of the plain bytes)',
     'GIFTI (expat) and the SPM .mat member (scipy.io.loadmat): no model; every cut point is swept against the predicate only',
     'that gzip/bz2/zstd/indexed_gzip satisfy the contract of C08_prefix_compressed (a truncated stream delivers a prefix of '
     'the plain bytes, then raises or ends): oracle, measured by the harness on every cut point, not proved',
